@@ -43,3 +43,19 @@ Proof. split; vm_compute; reflexivity. Qed.
 Theorem C06_lookup_panics_out_of_level_before_fix :
   look (converter 0 0 0 true false None (leaf [])) (3, 1, 99) = Panic.
 Proof. vm_compute. reflexivity. Qed.
+
+(* ---- the tile box a geographic box maps to: discrete stage of from_geo, per axis ---- *)
+Require Import ZArith.
+From VT Require Import Model.Geo Proofs.GeoProofs.
+Lemma C06_gen_geo_guard : geo_guard_variant = 1.  Proof. reflexivity. Qed.
+Theorem C06_geo_axis : forall S G n uw ue, (0 < S)%Z -> (0 <= G)%Z -> (1 <= n)%Z ->
+  let '(a, b) := axis_box geo_guard_variant S G n uw ue in
+  (0 <= a /\ a <= b /\ b <= n - 1)%Z /\
+  forall i, (0 <= i <= n - 1)%Z -> (uw + G < (i + 1) * S)%Z -> (i * S <= ue - G)%Z -> (a <= i <= b)%Z.
+Proof.
+  intros S G n uw ue HS HG Hn.
+  pose proof (axis_box_nonempty geo_guard_variant S G n uw ue Hn) as H1.
+  pose proof (fun i => axis_covers geo_guard_variant S G n uw ue i HS HG Hn) as H2.
+  destruct (axis_box geo_guard_variant S G n uw ue) as [a b]. split; [exact H1|]. intros i Hi Hw He. exact (H2 i Hi Hw He).
+Qed.
+Print Assumptions C06_geo_axis.
